@@ -188,7 +188,9 @@ func forwardCase(in ref.Instr, xs []*ref.T, exact bool) string {
 	}
 	rs := make([]tensor.Tensor, len(xs))
 	for i, x := range xs {
-		l, err := rt.Leaf(x, false)
+		// operands are tracked or untracked at (pseudo-)random: forward values must not depend on it
+		tracked := len(x.Data) > 0 && (math.Float64bits(x.Data[0])>>(3+uint(i)))&1 == 1
+		l, err := rt.Leaf(x, tracked)
 		if err != nil {
 			return fmt.Sprintf("cannot build operand %d of shape %v: %v", i, x.Shape, err)
 		}
